@@ -48,7 +48,10 @@ Concat(ss) == LET RECURSIVE C(_)
                   C(i) == IF i > Len(ss) THEN <<>> ELSE ss[i] \o C(i + 1)
               IN C(1)
 
-(* the include files every model instance knows (the engine writes the same three files to disk) *)
+(* The file bodies every model instance knows.  An include line names a BODY here; on disk the engine      *)
+(* resolves include NAMES to these bodies through the folder a kernel is built from, so that within one    *)
+(* process the same name denotes different bodies for different kernels: the rewriting of a source is a    *)
+(* function of (source, files found now), not of earlier calls.                                            *)
 FileNames == {"fa", "fb", "fc"}
 FileBody(f) == CASE f = "fa" -> <<[k |-> "plain"]>>
                  [] f = "fb" -> <<[k |-> "vec"], [k |-> "plain"], [k |-> "end"]>>
